@@ -52,6 +52,9 @@ def cases(tier, seed):
         out.append({"kind": "synthetic", "s": int(rng.integers(1 << 30)), "cell": cell_cls, "pattern": patterns.CLASSES[(j // 2) % len(patterns.CLASSES)],
                     "atol": [0.05, 0.2, 0.01, 0.5][(j // 3) % 4], "dims": [[2, 1, 1], [1, 2, 1], [1, 1, 2], [2, 2, 1], [1, 3, 2], [2, 1, 3]][j % 6]})
     out.append({"kind": "pinned_hint_case", "s": 0})
+    # supercells of a few thousand atoms (27 images of them: tens of thousands of candidate positions)
+    for j in range(2 if tier == "quick" else 40):
+        out.append({"kind": "big_supercell", "s": int(rng.integers(1 << 30)), "cell": ["ortho", "tri+-+"][j % 2], "atol": 0.05, "dims": [[5, 5, 5], [6, 5, 4], [4, 6, 5]][j % 3]})
     for j in range(36 if tier == "quick" else 3000):
         out.append({"kind": "near_degenerate_hints", "s": int(rng.integers(1 << 30)), "cell": ["ortho", "tri+-+", "general_tri", "tri--+"][j % 4],
                     "atol": [0.05, 0.2, 0.01][j % 3]})
@@ -286,6 +289,48 @@ def run_case(case, ctx):
             if len(S) <= 14:
                 ctx.sample({"kind": "synthetic", "case": {k: case[k] for k in ("cell", "pattern", "atol", "dims")}, "n_atoms": len(S), "clear_base_matches": nclear})
         return
+    if case["kind"] == "big_supercell":
+        pat = patterns.make(rng, ["asym4", "chiral4", "twofold", "pair_hetero"][case["s"] % 4])
+        atol = case["atol"]
+        built = planted.build(rng, pat, case["cell"], atol, n_copies=2, crossings=[int(x) for x in rng.integers(1, 4, 2)], poses=["random"] * 2,
+                              decoys=[], n_bystanders=36, n_distractors=3)
+        S, P = built["atoms"], patterns.to_atoms(pat)
+        from vmon.contracts import c01_domain
+        cell = np.array(S.cell, float)
+        if not c01_domain(S, P, atol) or not np.all(G.perp_widths(cell) > 2 * (G.diameter(np.asarray(P.positions, float)) + 2 * atol)):
+            st.count("out_of_domain_skipped")
+            return
+        w = {"kind": case["kind"], "cell": np.round(cell, 4).tolist(), "dims": case["dims"], "n_atoms_unit_cell": len(S), "pattern_elements": pat["elements"]}
+        base, _, _, exc = run_search(S, P, atol, seed=case["s"])
+        if exc is not None or not base:
+            st.count("big_supercell_base_unusable")
+            return
+        a_, b_, c_ = case["dims"]
+        S6 = clone(S)
+        S6.charges = np.arange(len(S), dtype=float)
+        big = S6.replicate((a_, b_, c_))
+        unit = [int(round(x)) for x in big.charges]
+        for shifted in (False, True):
+            if shifted:
+                bc = np.array(big.cell, float)
+                big.positions = G.wrap(bc, np.asarray(big.positions, float) + rng.uniform(-1, 1, 3).dot(bc))
+            r, _, _, exc = run_search(big, P, atol, seed=case["s"])
+            if exc is not None:
+                ctx.fail("search on the %dx%dx%d supercell (%d atoms) raised %s" % (a_, b_, c_, len(big), type(exc).__name__), witness=w)
+                return
+            counts = {}
+            for k in r:
+                uk = tuple(sorted(unit[i] for i in k))
+                counts[uk] = counts.get(uk, 0) + 1
+            for uk, clear in base.items():
+                if clear and len(set(uk)) == len(uk) and counts.get(uk, 0) != a_ * b_ * c_:
+                    ctx.fail("supercell %dx%dx%d of %d atoms%s: unit-cell group %s is reported %d times (expected %d)" %
+                             (a_, b_, c_, len(big), " shifted and wrapped" if shifted else "", uk, counts.get(uk, 0), a_ * b_ * c_), witness=w)
+                    break
+            st.count("big_supercell_searches")
+            st.seen("big_supercell_atoms", len(big) // 1000)
+        ctx.nontrivial([case["kind"], case["s"]])
+        return
     if case["kind"] == "near_degenerate_hints":
         # an orientation atom that is only just off the axis (1e-4..1e-3 A) still defines the roll about the axis; on
         # EXACT copies (no noise to amplify) every such hint triple must give the matches of the unhinted search
@@ -367,6 +412,8 @@ def requirements(stats, tier):
         need.append("fewer than 4 real structure/pattern pairs with clear matches: %s" % sorted(stats.sets.get("real_pair_with_clear_matches", [])))
     if stats.get("base_clear_groups") < (300 if tier == "quick" else 20000):
         need.append("too few clear base matches: %d" % stats.get("base_clear_groups"))
+    if stats.get("big_supercell_searches") < (2 if tier == "quick" else 40):
+        need.append("searches of supercells of thousands of atoms: %d" % stats.get("big_supercell_searches"))
     if stats.get("near_degenerate_hint_searches") < (150 if tier == "quick" else 12000):
         need.append("hint triples with a barely off-axis orientation atom on exact copies: %d searches" % stats.get("near_degenerate_hint_searches"))
     if stats.nseen("synthetic_cell_class") < len(planted.CELL_CLASSES):
